@@ -9,6 +9,7 @@ import z3
 from .interp import Unsupported, Panic, Agg, SeqIter, FnItem, Closure, PyFn, split_call
 from .mir import split_top, strip_generics
 from .biomodel import GraphObj
+from ..oracle import sem as S
 
 class Poison:
     def __repr__(self): return 'POISON'
@@ -222,7 +223,7 @@ class MergeExec:
             k = (tuple(key), bbn)
             if k in pending:
                 ost, og, octx = pending[k]
-                ng = z3.simplify(z3.Or(g, og))
+                ng = S.Or(g, og)
                 keys = set(st) | set(ost)
                 pending[k] = ({x: merge_val(g, st.get(x, POISON), ost.get(x, POISON)) for x in keys}, ng, ctx)
             else:
@@ -239,7 +240,7 @@ class MergeExec:
             stmts = fn.blocks[bbn]
             for s in stmts[:-1]: self.stmt(st, s, fn)
             for tgt, cond in self.terminator(st, stmts[-1], fn, g):
-                ng = g if cond is True else z3.simplify(z3.And(g, cond))
+                ng = g if cond is True else S.And(g, cond if z3.is_expr(cond) else z3.BoolVal(bool(cond)))
                 if z3.is_false(ng): continue
                 if tgt == 'return':
                     v = st.get(0)
